@@ -96,8 +96,19 @@ def run_check(prop, tier, seed):
             except Exception as e:
                 ctx.notes.append(f'driver unavailable: {e!r}')
                 obligations.append(('tie:driver', False, repr(e)))
+        from . import linecov
+        cov = linecov.LineCov(C.REPO)
+        cov_on = cov.start()
         try:
-            mod.run(ctx)
+            try:
+                mod.run(ctx)
+            finally:
+                cov.stop()
+                if cov_on:
+                    try:
+                        ctx.extra['code_coverage'] = cov.report(linecov.anchors_of(prop, C.VERIF / 'properties.jsonl'))
+                    except Exception as e:      # a diagnostic only: never part of the verdict
+                        ctx.extra['code_coverage'] = {'error': repr(e)}
         except C.Timeout:
             raise
         except Exception as e:
